@@ -1154,12 +1154,19 @@ func Gen(c *core.Ctx) {
 			payload: ndpgen.RA(byte(r.Intn(256)), byte(r.Intn(256)), uint16(r.Intn(65536)), r.Uint32(), r.Uint32(), opts)}
 	}
 	n := c.Scale(6000, 300000)
-	for i := 0; i < n; i++ {
+	boundary := ndpgen.Boundary(r)
+	for i := 0; i < n+len(boundary); i++ {
 		cnt := 1 + r.Intn(3)
+		if i >= n {
+			cnt = 1
+		}
 		toks := []string{}
 		for j := 0; j < cnt; j++ {
 			opts := ndpgen.RandOptions(r, 5)
-			if r.Intn(4) == 0 {
+			if i >= n {
+				// every option type x size x inner-length threshold (ndpgen.Boundary), one advertisement each
+				opts = boundary[i-n]
+			} else if r.Intn(4) == 0 {
 				opts = ndpgen.Mutate(r, opts)
 			}
 			rep := -1
